@@ -23,16 +23,18 @@ use std::collections::{BTreeMap, BTreeSet};
 pub struct C06;
 type Cmd = Vec<Vec<u8>>;
 
-fn gen_cmd(src: &mut Src, uniq: &mut u64, hashes: bool, type_changes: bool, expiry: bool) -> Cmd {
+fn gen_cmd(src: &mut Src, uniq: &mut u64, hashes: bool, type_changes: bool, expiry: bool, focus: u64) -> Cmd {
     let b = |s: &str| s.as_bytes().to_vec();
     *uniq += 1;
-    let k = src.idx(3);
+    // focus 1: everything happens to one hash; focus 2: to one string key (deep histories of one key)
+    let k = if focus > 0 { 0 } else { src.idx(3) };
     let skey = b(&format!("k{}", k));
     let hkey = if type_changes { skey.clone() } else { b(&format!("h{}", k)) };
     let v = b(&format!("v{}", uniq));
-    let f = b(&format!("f{}", src.idx(3)));
+    let f = b(&format!("f{}", src.idx(if focus == 1 { 6 } else { 3 })));
     let n = if hashes { 16 } else { 11 };
-    match src.below(n) {
+    let pick = match focus { 1 if hashes => 11 + src.below(6), 2 => [0u64, 2, 3, 4, 5, 8, 9][src.idx(7)], _ => src.below(n) };
+    match pick {
         0 | 1 => vec![b("SET"), skey, v],
         2 => vec![b("SET"), skey, v, b(if src.chance(1, 2) { "NX" } else { "XX" })],
         3 => vec![b("SET"), skey, v, b("GET")],
@@ -44,6 +46,11 @@ fn gen_cmd(src: &mut Src, uniq: &mut u64, hashes: bool, type_changes: bool, expi
         9 => vec![b("GETSET"), skey, v],
         10 => vec![b("SET"), b("ctr"), b(&format!("{}", src.irange(0, 50)))],
         11 | 12 => vec![b("HSET"), hkey, f, v],
+        16 => { // several fields at once
+            let mut c = vec![b("HSET"), hkey];
+            for i in 0..(2 + src.idx(if focus == 1 { 5 } else { 2 })) { c.push(b(&format!("f{}", i))); c.push(b(&format!("v{}.{}", uniq, i))); }
+            c
+        }
         13 => vec![b("HDEL"), hkey, f],
         14 => vec![b("HINCRBY"), hkey, b("n"), b(&format!("{}", src.irange(1, 5)))],
         _ => vec![b("DEL"), hkey],
@@ -71,7 +78,13 @@ impl Property for C06 {
         let expiry = src.chance(1, 4);
         let mut uniq = 0u64;
         // script: commands and network events
-        let script: Vec<(u64, usize, Cmd, usize)> = src.list(40, 29, 30, |s| { let kind = s.below(10); let node = s.idx(n); let c = gen_cmd(s, &mut uniq, hashes, type_changes, expiry); (kind, node, c, s.idx(n)) });
+        let focus = if src.chance(1, 4) { 1 + src.below(2) } else { 0 };
+        // The premise "each update has reached every replica" holds once the network has drained (every
+        // message was sent to every other node; lost ones are redelivered). Half of the runs stop there;
+        // the other half additionally hand every delta to every node again in a random order, as an
+        // anti-entropy pass would (which must not change the outcome, but can mask a lost update).
+        let full_redelivery = src.chance(1, 2);
+        let script: Vec<(u64, usize, Cmd, usize)> = src.list(40, 29, 30, |s| { let kind = s.below(10); let node = s.idx(n); let c = gen_cmd(s, &mut uniq, hashes, type_changes, expiry, focus); (kind, node, c, s.idx(n)) });
         let seed = src.u64_any();
         let trace = ctx.trace;
         struct Out { viol: Vec<(String, String)>, log: Vec<String>, probes: BTreeMap<&'static str, u64>, faults: BTreeMap<&'static str, u64>, nontrivial: bool, evals: u64 }
@@ -157,6 +170,7 @@ impl Property for C06 {
             if net.reordered > 0 { *o.probes.entry("message_reordered").or_insert(0) += net.reordered; }
             *o.faults.entry("net_reorder").or_insert(0) += net.reordered; *o.faults.entry("net_duplicate").or_insert(0) += net.duplicated; *o.faults.entry("net_drop_then_redeliver").or_insert(0) += net.dropped;
             for (i, node) in nodes.iter().enumerate() {
+                if !full_redelivery { break; }
                 let mut order: Vec<usize> = (0..all_deltas.len()).collect();
                 for j in (1..order.len()).rev() { let x = src.idx(j + 1); order.swap(j, x); }
                 let _ = i;
@@ -178,6 +192,15 @@ impl Property for C06 {
                     let ex = nd.exec(&vec![b("EXISTS"), k.as_bytes().to_vec()]).await;
                     let ttl = nd.exec(&vec![b("TTL"), k.as_bytes().to_vec()]).await;
                     answers.push(format!("GET={} HGETALL={} EXISTS={} TTL={}", get.show(), hg.show(), ex.show(), ttl.show()));
+                }
+                // where SET and HSET raced on the key, a divergence that is already in the replication
+                // states is the merge's doing (recorded root cause), not the materialisation's
+                if class == "type-conflict" {
+                    let projs: Vec<Option<String>> = snaps.iter().map(|s| s.get(k).map(proj_conv_s)).collect();
+                    if projs.iter().any(|p| p != &projs[0]) {
+                        o.viol.push(("C06/replication-state-differs/type-conflict".to_string(), format!("key {}: {} || served: {}", k, projs.iter().enumerate().map(|(i, p)| format!("node{}: {}", i + 1, p.clone().unwrap_or_else(|| "<absent>".into()))).collect::<Vec<_>>().join(" | "), answers.join(" | "))));
+                        return o;
+                    }
                 }
                 if answers.iter().any(|a| a != &answers[0]) {
                     o.viol.push((format!("C06/replicas-answer-differently/{}", class), format!("key {} after every delta reached every node: {}", k, answers.iter().enumerate().map(|(i, a)| format!("node{}: {}", i + 1, a)).collect::<Vec<_>>().join(" | "))));
@@ -238,7 +261,7 @@ impl Property for C06 {
         let mut fp = fnv(0, &[n as u8, hashes as u8, type_changes as u8, expiry as u8]);
         for (k, nd, c, o2) in &script { fp = fnv(fp, &[*k as u8, *nd as u8, *o2 as u8]); for a in c { fp = fnv(fp, a); } }
         rep.fingerprint = fp;
-        rep.sample = Some(json!({"nodes": n, "consistency": format!("{:?}", level), "type_changes": type_changes, "expiry": expiry, "script": script.iter().take(14).map(|(k, nd, c, o2)| if *k < 5 { format!("node{}: {}", nd + 1, show_cmd(c)) } else if *k < 8 { "net: deliver/duplicate/lose one message".to_string() } else if *k == 8 { format!("net: partition node{}|node{}", nd + 1, o2 + 1) } else { "net: heal".to_string() }).collect::<Vec<_>>() }));
+        rep.sample = Some(json!({"full_redelivery_at_end": full_redelivery, "focus": focus, "nodes": n, "consistency": format!("{:?}", level), "type_changes": type_changes, "expiry": expiry, "script": script.iter().take(14).map(|(k, nd, c, o2)| if *k < 5 { format!("node{}: {}", nd + 1, show_cmd(c)) } else if *k < 8 { "net: deliver/duplicate/lose one message".to_string() } else if *k == 8 { format!("net: partition node{}|node{}", nd + 1, o2 + 1) } else { "net: heal".to_string() }).collect::<Vec<_>>() }));
         rep
     }
 }
